@@ -33,7 +33,7 @@ SPEC = dict(
     ],
 )
 
-WEIGHTS = [1.0, -2.0, 3.0, 5.0, -7.0, 11.0, 13.0, -17.0, 19.0, 23.0, -29.0, 31.0, 37.0, -41.0, 43.0, 47.0]
+WEIGHTS = [3.0, -2.0, 1.0, 5.0, -7.0, 11.0, 13.0, -17.0, 19.0, 23.0, -29.0, 31.0, 37.0, -41.0, 43.0, 47.0]
 
 
 def gen_cases(tier, seed):
@@ -53,10 +53,15 @@ def gen_cases(tier, seed):
         for prog, outs in P.enum_program_outputs(shapes, req, depth, both_orders=(mode != "light")):
             light = mode == "light" or (mode == "mixed" and outs != sorted(outs))
             cases.append(dict(prog=prog, outs=outs, seed=seed, light=light))
+    # outputs that are themselves leaves (identity rows); only with explicit inputs (a leaf has no grad_fn to start discovery from)
+    for scen, flags in (("S1", "all"), ("S2", "all"), ("S1", "L1off")):
+        for depth in ((0, 1) if tier == "quick" else (0, 1, 2)):
+            for prog, outs in P.enum_program_outputs(P.SHAPE_SCENARIOS[scen], P.FLAG_SCENARIOS[flags], depth, both_orders=True, leaf_outputs=True):
+                cases.append(dict(prog=prog, outs=outs, seed=seed, light=depth >= 1, leafout=True))
     return cases
 
 
-def _configs(t, outs, leaves, m, light):
+def _configs(t, outs, leaves, m, light, leafout=False):
     """(inputs listing | None, set order (ranks over the listing), aggregator name, chunk, dtype)"""
     cfgs = []
     full = list(leaves)
@@ -88,9 +93,14 @@ def _configs(t, outs, leaves, m, light):
         if not light:
             cfgs.append((None, list(range(len(eff))), a, 2, "float64"))
     cfgs.append((full, nat, "const", None, "float32"))
+    # argument containers: inputs as generator / tuple, a single output given as a bare tensor, outputs as a tuple
+    cfgs.append((full, nat[::-1], "const", None, "float64", "gen"))
+    cfgs.append((full[:2], nat[:2], "const", 1, "float64", "tuple"))
     if not light:
         cfgs.append((full, nat[::-1], "const", 1, "float32"))
         cfgs.append((None, list(range(len(eff)))[::-1], "upgrad", 2, "float32"))
+    if leafout:
+        cfgs = [c for c in cfgs if c[0] is not None]
     return cfgs
 
 
@@ -119,7 +129,9 @@ def run_case(case):
     counters = dict(seam_hits=0, col_orders=0, configs=0)
     col_orders_seen = set()
     fwd_checked = False
-    for ci, (listing, order, aggname, chunk, dtype) in enumerate(_configs(t, outs, leaves, m, case["light"])):
+    for ci, cfg_ in enumerate(_configs(t, outs, leaves, m, case["light"], case.get("leafout", False))):
+        listing, order, aggname, chunk, dtype = cfg_[:5]
+        cont = cfg_[5] if len(cfg_) > 5 else "list"
         vals = P.build_torch(prog, lv, dtype)
         if not fwd_checked:
             if not P.forward_agrees(vals, ref, dtype):
@@ -136,11 +148,18 @@ def run_case(case):
                 pre[i] = g.detach().clone()
         rank = {id(vals[l]): order[j] for j, l in enumerate(members)} if len(order) == len(members) else {}
         agg = RecordingAggregator(_make_agg(aggname, m, dtype))
-        sig_cfg = f"inputs={listing} order={order} agg={aggname} chunk={chunk} {dtype}"
+        sig_cfg = f"inputs={listing} order={order} agg={aggname} chunk={chunk} {dtype} containers={cont}"
+        tensors_arg = [vals[o] for o in outs]
+        inputs_arg = None if listing is None else [vals[l] for l in listing]
+        if cont == "gen":
+            inputs_arg = (x for x in inputs_arg)
+            tensors_arg = tuple(tensors_arg)
+        elif cont == "tuple":
+            inputs_arg = tuple(inputs_arg)
+            tensors_arg = tensors_arg[0] if len(tensors_arg) == 1 else tuple(tensors_arg)
         try:
             with SetOrderSeam(lambda x: rank.get(id(x), 99)) as seam:
-                backward([vals[o] for o in outs], agg, inputs=None if listing is None else [vals[l] for l in listing],
-                         parallel_chunk_size=chunk)
+                backward(tensors_arg, agg, inputs=inputs_arg, parallel_chunk_size=chunk)
             counters["seam_hits"] += seam.hits
         except Exception as e:  # the call is valid: any exception violates C01
             viol.append(dict(sig=f"exception:{type(e).__name__}", cls=f"exception:{type(e).__name__}:{aggname}",
